@@ -776,6 +776,42 @@ def rule_e6(ctx, rule_id: str = "C07-E6") -> None:
             ctx.finding(rule_id, "CheckCarbonBalance.process_reaction:carbon-total:%s" % nm, f.loc(), "the carbon total %s is not a sum over every dot-separated component: %s" % (nm, why))
 
 
+def rule_e12(ctx, rule_id: str = "C07-E12") -> None:
+    """The carbon label counts fragment by fragment, and an unparsable fragment counts as zero (count_atoms, pinned by a
+    unit test).  The pieces of a side are molecules on their own only if no ring closure spans a dot: `C1.O1` is methanol,
+    its pieces `C1` and `O1` do not parse.  The side has to be brought into a form with self-contained fragments - parsed
+    as a whole - before it is split."""
+    ctx.rule(rule_id, "a side is parsed as a whole before its dot-separated fragments are counted one by one", 2)
+    prog = ctx.prog
+    f = prog.func(CARBON_PROC)
+    splits = []
+    for n in own_nodes(f.node):
+        if isinstance(n, (ast.GeneratorExp, ast.ListComp)):
+            it = n.generators[0].iter
+            if isinstance(it, ast.Call) and isinstance(it.func, ast.Attribute) and it.func.attr == "split" and it.args and const_str(it.args[0]) == "." and isinstance(it.func.value, ast.Name):
+                splits.append((n, it.func.value.id))
+    ctx.require(splits, "process_reaction no longer splits the sides at '.'")
+
+    def whole_parse(call) -> bool:
+        """call(<x>) parses <x> as one SMILES: MolFromSmiles itself, or a package function that hands its parameter to it"""
+        if unparse(call.func).split(".")[-1] == "MolFromSmiles":
+            return True
+        tgt = ctx.res.resolve_callee(call, f)
+        g = prog.functions.get(tgt[1]) if tgt and tgt[0] == "func" else None
+        if g is None:
+            return False
+        return any(isinstance(c, ast.Call) and unparse(c.func).split(".")[-1] == "MolFromSmiles" and c.args and isinstance(c.args[0], ast.Name) and c.args[0].id in g.params for c in own_nodes(g.node))
+
+    for node, name in splits:
+        ok = False
+        for _st, v, _i in assignments_to(f, name):
+            if any(isinstance(c, ast.Call) and whole_parse(c) and any(isinstance(x, ast.Name) and x.id == name for a in c.args for x in ast.walk(a)) for c in ast.walk(v)):
+                ok = True
+        ctx.instance(rule_id, "process_reaction: %s is parsed as a whole before %s.split('.'): %s" % (name, name, ok), f.loc(node), ok=ok)
+        if not ok:
+            ctx.finding(rule_id, "CheckCarbonBalance.process_reaction:fragments-not-self-contained:%s" % name, f.loc(node), "the fragments of %s are counted one by one although the side was never parsed as a whole: with a ring closure across a dot (C1.O1) the fragments do not parse, count as zero, and a reaction whose products hold more carbon is labelled balanced" % name)
+
+
 def rule_e7(ctx) -> None:
     """The carbon-count memo is keyed by the SMILES only although the count
     also depends on the atom type: sound only while the memo lives on an
@@ -872,3 +908,4 @@ def check(ctx) -> None:
     from . import c01
 
     c01.rule_r2(ctx, Pipeline(ctx), "C07-E11")
+    rule_e12(ctx)
